@@ -58,7 +58,7 @@ pub fn make_scenario(rng : &mut Rng, prop : &str, thorough : bool) -> Scenario
     let some_target = |rng : &mut Rng| targets[rng.below(targets.len())].clone();
     let goal = |rng : &mut Rng| if rng.chance(1, 3) { Some(targets[rng.below(targets.len())].clone()) } else { None };
 
-    let class = if prop == "C06" { *rng.pick(&[2usize, 2, 2, 6, 6, 8, 1, 4]) } else { rng.below(9) };
+    let class = if prop == "C06" { *rng.pick(&[2usize, 2, 2, 6, 6, 8, 1, 4, 9, 9, 9]) } else { rng.below(10) };
     let (label, prep) : (&str, Vec<HOp>) = match class
     {
         0 => ("fresh", vec![]),
@@ -69,6 +69,18 @@ pub fn make_scenario(rng : &mut Rng, prop : &str, thorough : bool) -> Scenario
         5 => { let l = some_leaf(rng); ("built+edited+built+cache-entry-deleted+reverted", vec![HOp::Build(None), HOp::EditLeaf(l.clone()), HOp::Build(None), HOp::DeleteCacheEntry, HOp::RevertLeaf(l)]) },
         6 => { let l = some_leaf(rng); ("built+edited+built+reverted", vec![HOp::Build(None), HOp::EditLeaf(l.clone()), HOp::Build(None), HOp::RevertLeaf(l)]) },
         7 => ("built+rule-edited", vec![HOp::Build(None), HOp::EditRule]),
+        9 =>
+        {
+            // some rules cleaned one by one (they will restore), another rule's leaf edited (it will back up what it holds):
+            // with byte-identical contents restores and a back-up meet on one cache entry
+            let mut ops = vec![HOp::Build(None)];
+            let mut pool = targets.clone();
+            rng.shuffle(&mut pool);
+            for t in pool.iter().take(2) { ops.push(HOp::Clean(Some(t.clone()))); }
+            ops.push(HOp::EditLeaf(some_leaf(rng)));
+            if rng.chance(1, 2) { ops.push(HOp::EditLeaf(some_leaf(rng))); }
+            ("built+two-goals-cleaned+leaf-edited", ops)
+        },
         _ => ("built+cleaned+tampered", vec![HOp::Build(None), HOp::Clean(None), HOp::Tamper(some_target(rng))]),
     };
 
